@@ -83,7 +83,10 @@ class Field(object):
         # if the field belongs to an instance and was unpacked already,
         # we return the actual byte-length of the resulting struct:
         try:
-            return len(self.instance[self.name])
+            v = self.instance[self.name]
+            if self.count > 0:
+                return sum((len(x) for x in v), 0)
+            return len(v)
         except Exception:
             pass
         # otherwise we return the natural size of the field's type,
